@@ -108,8 +108,9 @@ class C05(Prop):
         'parent.remove(child) is only issued for children in the parent\'s '
         'body (arguments are edited through delete/replace)',
     )
-    probes = ('edit', 'args')
+    probes = ('edit', 'args', 'reach')
     probed_every = 5
+    reach_required = ['data.TexNode.delete', 'data.TexNode.replace', 'data.TexNode.replace_with', 'data.TexNode.remove', 'data.TexNode.insert', 'data.TexNode.append', 'data.TexExpr.remove', 'data.TexExpr.insert', 'data.TexExpr.append', 'data.TexNode._container_of']
     min_nontrivial = 1000
     budget_s = {'quick': 240, 'thorough': 3000}
 
